@@ -186,4 +186,16 @@ def wfuse (x y : BOp α) (ga : α) : Except Label (BOp α) :=
     BOp.tryNew b d u a
 
 
+variable {m : Nat}
+
+/-- `mul::mbr` (src/mul.rs:739-763) -/
+def mbr (ax : Tab α n) (conds : CondTab α n m) : Option (Tab α m) :=
+  if conds.toList.all (fun c => c.isVacuous) then none
+  else
+    let raw : Tab α m := Vector.ofFn fun y =>
+      Tab.sumIter (Vector.ofFn fun x : Fin n => ax[x] * (conds[x]).b[y])
+    let sumA := Tab.sumLoop raw
+    some (raw.map fun a => a / sumA)
+
+
 end SLV.Pinned
